@@ -354,7 +354,7 @@ func inlineExpr(t *Term, defined map[int]bool) (string, bool) {
 		return ref(t), true
 	}
 	seen := map[int]bool{}
-	var order []*Term
+	var order, free []*Term
 	undeclared := false
 	var walk func(x *Term)
 	walk = func(x *Term) {
@@ -363,7 +363,10 @@ func inlineExpr(t *Term, defined map[int]bool) (string, bool) {
 		}
 		seen[x.id] = true
 		if x.Op == "var" {
+			// a variable the solver never saw: its value is arbitrary; it is bound to zero so that the rest of
+			// the term (which may well be determined by declared variables) still evaluates under the model
 			undeclared = true
+			free = append(free, x)
 			return
 		}
 		for _, a := range x.Args {
@@ -372,15 +375,27 @@ func inlineExpr(t *Term, defined map[int]bool) (string, bool) {
 		order = append(order, x)
 	}
 	walk(t)
-	if undeclared {
-		return "", false
-	}
 	var sb strings.Builder
+	if undeclared {
+		for _, x := range free {
+			switch {
+			case x.W > 0:
+				fmt.Fprintf(&sb, "(let ((%s (_ bv0 %d))) ", x.Name, x.W)
+			case x.W == 0:
+				fmt.Fprintf(&sb, "(let ((%s false)) ", x.Name)
+			default:
+				fmt.Fprintf(&sb, "(let ((%s ((as const (Array (_ BitVec 64) (_ BitVec 8))) #x00))) ", x.Name)
+			}
+		}
+	}
 	for _, x := range order {
 		fmt.Fprintf(&sb, "(let ((t%d %s)) ", x.id, body(x))
 	}
 	sb.WriteString(ref(t))
 	for range order {
+		sb.WriteString(")")
+	}
+	for range free {
 		sb.WriteString(")")
 	}
 	return sb.String(), true
